@@ -157,7 +157,7 @@ func (f *Frame) callStatic(fn *ssa.Function, args, free []*Value, c *ssa.CallCom
 	e := f.e
 	name := e.qual(fn)
 	if f.top && !f.dry && f.fc != nil && len(f.fc.Asserts) > 0 {
-		f.siteAsserts(shortName(name), pos)
+		f.siteAsserts(shortName(name), pos, args...)
 	}
 	if r, ok := f.stdBuiltin(name, fn, args, c, pos); ok {
 		return r
@@ -335,7 +335,8 @@ func (f *Frame) calleeEnv(fn *ssa.Function, sig *types.Signature, args, free []*
 		}
 		for i, fv := range fn.FreeVars {
 			if i < len(free) {
-				names[fv.Name()] = &Value{Loc: f.e.ptrLoc(free[i]), Type: free[i].Type}
+				// a captured variable: the name denotes the variable's cell (as in contractEnv)
+				names[fv.Name()] = &Value{Loc: f.e.ptrLoc(free[i]), Type: fv.Type().(*types.Pointer).Elem(), T: "VAR"}
 			}
 		}
 	} else {
